@@ -15,12 +15,22 @@ var (
 	strs     = []string{"", "v", "hello world", "q\"uote", "nl\nline", "tab\t", "µs", "\xff\xfe", "back\\slash", "a=b |", " ", "\x00"}
 	grpNames = []string{"g", "grp", "", "req", "a.b", "é", "stack_trace"}
 	msgs     = []string{"", "msg", "hello world", "a | b", "k=v", "µ unicode", "tab\there", "\"quoted\""}
-	levels   = []int{-8, -5, -4, -3, -1, 0, 1, 3, 4, 5, 7, 8, 9, 12, 100, -100, 1234}
-	floats   = []float64{0, math.Copysign(0, -1), 1.5, -2.25, 1e21, 1e-7, math.NaN(), math.Inf(1), math.Inf(-1), math.MaxFloat64, 0.1, 123456789}
-	ints     = []int64{0, 1, -1, 42, math.MaxInt64, math.MinInt64, 1000000}
-	durs     = []int64{0, 1, 1500, 1000000, 90 * 1e9, -5 * 1e9, 3600 * 1e9, math.MaxInt64}
+	levels   = []int{-8, -5, -4, -3, -1, 0, 1, 3, 4, 5, 7, 8, 9, 12, 100, -100, 1234, 2, -2, 10, 99, 101, 999, 1000, -9, -10, -99, 127, 128,
+		255, 256, math.MaxInt32, math.MaxInt32 + 1, math.MinInt32, math.MinInt32 - 1, math.MaxInt64, math.MaxInt64 - 1, math.MinInt64,
+		math.MinInt64 + 1, math.MaxInt64/2 + 1, 1 << 62}
+	rootLvls = []string{"-8", "-4", "0", "0", "0", "0", "1", "4", "8", "100", "-100", "9223372036854775807", "-9223372036854775808",
+		"nil", "tnil", "var:0", "var:4", "var:-4", "2147483648"}
+	depths   = []int{1, 1, 1, 2, 2, 3, 3, 8, 64, 1000}
+	negDepth = []int{-1, -2, math.MinInt64, math.MinInt32}
+	floats   = []float64{0, math.Copysign(0, -1), 1.5, -2.25, 1e21, 1e-7, math.NaN(), math.Inf(1), math.Inf(-1), math.MaxFloat64, 0.1, 123456789,
+		math.SmallestNonzeroFloat64, 2.2250738585072014e-308, 2.225073858507201e-308, 1 << 53, 1<<53 + 2, 0.30000000000000004, 1e20, 1e21 - 131072,
+		999999.9999999999, -math.MaxFloat64, float64(math.MaxFloat32), 5e-324, 1e-5, 1e-4}
+	ints     = []int64{0, 1, -1, 42, math.MaxInt64, math.MinInt64, 1000000, math.MaxInt32, math.MaxInt32 + 1, math.MinInt32 - 1, 999999, 1000001,
+		math.MaxInt64 - 1, math.MinInt64 + 1, 1 << 62, 255, 256, 65535, 65536, 9, 10, 99, 100}
+	uints    = []uint64{0, 1, 9, 10, 1 << 63, 1<<63 - 1, 1<<63 + 1, math.MaxUint64, math.MaxUint64 - 1, math.MaxUint32, math.MaxUint32 + 1}
+	durs     = []int64{0, 1, 1500, 1000000, 90 * 1e9, -5 * 1e9, 3600 * 1e9, math.MaxInt64, math.MinInt64, -1, 999, 1000, 999999999, 1000000000, 59999999999}
 	secs     = []int64{0, 1, 1000000000, 1700000000, 1758844800, 253402300799 - 86400, -62135596800 + 86400, 951782400, 68169600}
-	nsecs    = []int64{0, 999999999, 500000, 999499999, 1000000, 123456789}
+	nsecs    = []int64{0, 999999999, 500000, 999499999, 1000000, 123456789, 999500000, 999999, 499999, 500000000, 999000000, 1, 99999999}
 	zones    = []int{0, 0, 3600, -18000, 19800, -34200}
 	traces   = []string{"    [main.f] f.go:12", "    [main.f] f.go:12\n    [main.g] g.go:3", "", "one\ntwo\nthree", "    [x.y] z.go:1\n  Caused by: boom"}
 )
@@ -44,6 +54,8 @@ func genLeaf(r *hx.Rng, key string) *node {
 				b[i] = byte(r.U64())
 			}
 			s = string(b)
+		} else if r.Chance(1, 60) {
+			s = longString(r)
 		}
 		n.leaf, n.payload, n.tok = 's', hexs(s), strconv.Quote(s)
 	case 3, 4:
@@ -55,7 +67,7 @@ func genLeaf(r *hx.Rng, key string) *node {
 	case 5:
 		v := r.U64()
 		if r.Bool() {
-			v = math.MaxUint64
+			v = hx.Pick(r, uints)
 		}
 		n.leaf, n.payload, n.tok = 'u', strconv.FormatUint(v, 10), strconv.FormatUint(v, 10)
 	case 6:
@@ -87,7 +99,9 @@ func genLeaf(r *hx.Rng, key string) *node {
 			n.leaf, n.payload, n.tok = 'n', "_", "<nil>"
 		}
 	default:
-		if r.Bool() {
+		if r.Chance(1, 8) { // a LogValuer that never resolves: slog gives up and substitutes an error value
+			n.leaf, n.payload, n.tok = 'r', "_", "LogValue called too many times on Value of type *main.loopLV"
+		} else if r.Bool() {
 			s := hx.Pick(r, strs)
 			n.leaf, n.payload, n.tok = 'x', hexs(s), s
 		} else {
@@ -157,22 +171,36 @@ func (n *node) norm() *node {
 	return n
 }
 
-func (n *node) words(out []string) []string {
+func (n *node) words(out []string) []string { return n.wordsIn(out, "") }
+
+// wordsIn: `outer` is the type of the outermost LogValuer the value is wrapped in (slog names it when a LogValuer
+// never resolves).
+func (n *node) wordsIn(out []string, outer string) []string {
 	switch n.kind {
 	case 'e':
 		return append(out, "e")
 	case 'l':
-		return append(out, "l", hexs(n.key), hexs(n.tok), string(n.leaf), n.payload)
+		tok := n.tok
+		if n.leaf == 'r' && outer != "" {
+			tok = strings.Replace(tok, "*main.loopLV", outer, 1)
+		}
+		return append(out, "l", hexs(n.key), hexs(tok), string(n.leaf), n.payload)
 	case 'g':
 		out = append(out, "g", hexs(n.key), strconv.Itoa(len(n.kids)))
 		for _, k := range n.kids {
-			out = k.words(out)
+			out = k.wordsIn(out, "")
 		}
 		return out
 	case 'v':
-		return n.inner.words(append(out, "v"))
+		if outer == "" {
+			outer = "*main.lv"
+		}
+		return n.inner.wordsIn(append(out, "v"), outer)
 	case 'k':
-		return n.inner.words(append(out, "k", hexs(n.key), hexs(n.trace)))
+		if outer == "" {
+			outer = "*main.carrier"
+		}
+		return n.inner.wordsIn(append(out, "k", hexs(n.key), hexs(n.trace)), outer)
 	}
 	return out
 }
@@ -190,176 +218,420 @@ func genAttrs(r *hx.Rng, maxN int, record bool) []string {
 	return out
 }
 
+// longString returns a string around a size threshold (small-buffer, page and 64 KiB boundaries).
+func longString(r *hx.Rng) string {
+	n := hx.Pick(r, []int{63, 64, 65, 127, 128, 129, 255, 256, 257, 1023, 1024, 4095, 4096, 4097, 65535, 65536, 65537, 70000})
+	b := make([]byte, n)
+	for i := range b {
+		b[i] = "abcdefghijklmnopqrstuvwxyz \"\\\n"[(i*7+n)%30]
+	}
+	return string(b)
+}
+
+var sizes = []int{5, 6, 7, 12, 16, 17, 32, 33, 64, 65, 100, 128, 129, 257}
+
+// bigAttrs returns attribute words of a shape chosen for its SIZE: many attributes (slog keeps the first five inline),
+// deep nesting, wide groups, long values.
+func bigAttrs(r *hx.Rng, tier string, record bool) []string {
+	var nodes []*node
+	switch r.Intn(5) {
+	case 0: // many flat attributes
+		n := hx.Pick(r, sizes)
+		if tier == "thorough" && r.Chance(1, 4) {
+			n = hx.Pick(r, []int{1000, 1025, 2049})
+		}
+		for i := 0; i < n; i++ {
+			if r.Chance(1, 10) {
+				nodes = append(nodes, genNode(r, 2))
+			} else {
+				nodes = append(nodes, genLeaf(r, "k"+strconv.Itoa(i)))
+			}
+		}
+	case 1: // deep nesting, an attribute after each closing group (the prefix must be restored at every level)
+		d := hx.Pick(r, []int{10, 11, 16, 17, 32, 33, 64, 65})
+		cur := genLeaf(r, "leaf")
+		for i := d; i > 0; i-- {
+			g := &node{kind: 'g', key: "g" + strconv.Itoa(i)}
+			if r.Chance(1, 5) {
+				g.kids = append(g.kids, &node{kind: 'g', key: "empty"}) // dropped by GroupValue
+			}
+			if r.Chance(1, 5) {
+				g.kids = append(g.kids, &node{kind: 'v', inner: &node{kind: 'g', key: "vempty"}}) // survives until Resolve
+			}
+			g.kids = append(g.kids, cur)
+			if r.Bool() {
+				g.kids = append(g.kids, genLeaf(r, "after"+strconv.Itoa(i)))
+			}
+			if r.Chance(1, 4) {
+				cur = &node{kind: 'v', inner: g}
+			} else {
+				cur = g
+			}
+		}
+		nodes = append(nodes, cur, genLeaf(r, "tail"))
+	case 2: // a wide group and wide nested groups
+		n := hx.Pick(r, sizes)
+		g := &node{kind: 'g', key: "wide"}
+		for i := 0; i < n; i++ {
+			if i%9 == 4 {
+				in := &node{kind: 'g', key: "in" + strconv.Itoa(i)}
+				for j, k := 0, r.Intn(4); j < k; j++ {
+					in.kids = append(in.kids, genLeaf(r, "j"+strconv.Itoa(j)))
+				}
+				g.kids = append(g.kids, in)
+			} else {
+				g.kids = append(g.kids, genLeaf(r, "i"+strconv.Itoa(i)))
+			}
+		}
+		nodes = append(nodes, genLeaf(r, "before"), g, genLeaf(r, "after"))
+	case 3: // long values and keys
+		s := longString(r)
+		nodes = append(nodes, &node{kind: 'l', key: "long", leaf: 's', payload: hexs(s), tok: strconv.Quote(s)})
+		k := longString(r)
+		if len(k) > 5000 {
+			k = k[:5000]
+		}
+		nodes = append(nodes, genLeaf(r, strings.ReplaceAll(k, "\n", "_")), genLeaf(r, "z"))
+	default: // empty things in every position, with something after them
+		for i, k := 0, r.Range(3, 12); i < k; i++ {
+			switch r.Intn(6) {
+			case 0:
+				nodes = append(nodes, &node{kind: 'g', key: hx.Pick(r, keys)})
+			case 1:
+				nodes = append(nodes, &node{kind: 'v', inner: &node{kind: 'g', key: hx.Pick(r, keys)}})
+			case 2:
+				nodes = append(nodes, &node{kind: 'e'})
+			case 3:
+				nodes = append(nodes, &node{kind: 'g', key: hx.Pick(r, keys), kids: []*node{{kind: 'v', inner: &node{kind: 'g', key: "x"}}, {kind: 'e'}}})
+			case 4:
+				nodes = append(nodes, &node{kind: 'k', key: "stack_trace", trace: hx.Pick(r, traces), inner: genLeaf(r, "stack_trace")})
+			default:
+				nodes = append(nodes, genLeaf(r, hx.Pick(r, keys)))
+			}
+		}
+	}
+	var out []string
+	for _, n := range nodes {
+		n = n.norm()
+		if record && n.plainEmptyGroup() {
+			continue
+		}
+		out = n.words(out)
+	}
+	return out
+}
+
 type ghandler struct {
 	name  string
 	multi bool
 	sinks []int
+	depth int // number of derivations below its root
 }
 
-func (logArea) Gen(r *hx.Rng, n int, _ string, emit func(string)) {
-	left := n
-	out := func(s string) { emit(s); left-- }
-	for left > 0 {
-		out("reset")
-		var hs []ghandler
-		buffered := map[int]int{}
-		held := map[int]bool{}
-		panicky := map[int]bool{}
-		nextH, nextS := 0, 1
-		newName := func() string { nextH++; return "h" + strconv.Itoa(nextH-1) }
-		addRoot := func() {
-			depth := 0
-			if r.Chance(1, 4) {
-				depth = r.Range(1, 3)
-			}
-			w := []string{"new", newName(), strconv.Itoa(nextS), strconv.Itoa(hx.Pick(r, []int{-8, -4, 0, 0, 0, 1, 4, 8})), strconv.Itoa(depth)}
-			if r.Chance(1, 4) {
-				seen := map[int]bool{}
-				for i, k := 0, r.Range(1, 3); i < k; i++ {
-					l := hx.Pick(r, levels)
-					if !seen[l] {
-						seen[l] = true
-						w = append(w, strconv.Itoa(l)+":"+hexs(hx.Pick(r, []string{"TRACE", "info", "", "W", "FATAL!", "é"})))
-					}
-				}
-			}
-			if depth > 0 {
-				buffered[nextS] = depth
-			}
-			hs = append(hs, ghandler{name: w[1], sinks: []int{nextS}})
-			nextS++
-			out(strings.Join(w, " "))
+var (
+	okModes   = []string{"ok", "ok", "fail", "faile", "fails", "fails", "failm", "failn", "failf", "panic", "panice", "panicr", "panicp", "panicn", "panics"}
+	logAPIs   = []string{"Log", "LogContext", "LogTo", "LogContextTo", "LogWithLevel", "LogAttrs", "LogAttrsContext", "LogAttrsTo", "LogAttrsContextTo", "LogAttrsWithLevel"}
+	bigMsgLen = []int{64, 65, 4096, 65536, 65537}
+)
+
+type gen struct {
+	r        *hx.Rng
+	tier     string
+	left     int
+	emit     func(string)
+	hs       []ghandler
+	buffered map[int]int
+	held     map[int]bool
+	isVar    map[int]bool
+	nextH    int
+	nextS    int
+}
+
+func (g *gen) out(s string) { g.emit(s); g.left-- }
+
+func (g *gen) newName() string { g.nextH++; return "h" + strconv.Itoa(g.nextH-1) }
+
+func (g *gen) addRoot() {
+	r := g.r
+	depth := 0
+	switch {
+	case r.Chance(1, 4):
+		depth = hx.Pick(r, depths)
+	case r.Chance(1, 20):
+		depth = hx.Pick(r, negDepth) // Normalize turns it into 0
+	}
+	lvl := hx.Pick(r, rootLvls)
+	w := []string{"new", g.newName(), strconv.Itoa(g.nextS), lvl, strconv.Itoa(depth)}
+	if r.Chance(1, 4) {
+		seen := map[int]bool{}
+		k := r.Range(1, 3)
+		if r.Chance(1, 8) {
+			k = hx.Pick(r, []int{8, 9, 17, 33}) // beyond the small-map representation
 		}
-		addRoot()
-		for ops := r.Range(8, 45); ops > 0 && left > 0; ops-- {
-			h := hs[r.Intn(len(hs))]
-			if r.Chance(1, 3) { // favour recent handlers so that chains grow
-				h = hs[len(hs)-1-r.Intn(min(3, len(hs)))]
-			} else if r.Chance(1, 3) { // and fan-out handlers once there are some
-				var ml []ghandler
-				for _, x := range hs {
-					if x.multi && len(x.sinks) > 0 {
-						ml = append(ml, x)
-					}
-				}
-				if len(ml) > 0 {
-					h = hx.Pick(r, ml)
-				}
+		for i := 0; i < k; i++ {
+			l := hx.Pick(r, levels)
+			if i >= 3 {
+				l = i*3 - 20
 			}
-			anyHeld := len(held) > 0
-			c := r.Intn(100)
-			switch {
-			case c >= 92 && !anyHeld:
-				// one fan-out handler takes several records in a row while the set of failing children varies; its first
-				// child keeps returning its sentinel *errs.Error (an aggregate must never be built INTO a child's error)
-				var ml []ghandler
-				for _, x := range hs {
-					if x.multi && len(x.sinks) >= 2 {
-						ml = append(ml, x)
-					}
-				}
-				if len(ml) == 0 {
-					addRoot()
-					continue
-				}
-				m := hx.Pick(r, ml)
-				out("mode " + strconv.Itoa(m.sinks[0]) + " fails")
-				for k := r.Range(3, 7); k > 0 && left > 0; k-- {
-					for _, sk := range m.sinks[1:] {
-						if sk == m.sinks[0] || r.Chance(1, 3) {
-							continue
-						}
-						md := hx.Pick(r, []string{"ok", "ok", "fail", "faile", "fails", "panic"})
-						if buffered[sk] > 0 && md == "panic" {
-							md = "fail"
-						}
-						out("mode " + strconv.Itoa(sk) + " " + md)
-					}
-					if r.Chance(1, 6) {
-						out("mode " + strconv.Itoa(m.sinks[0]) + " " + hx.Pick(r, []string{"ok", "fails", "fails"}))
-					}
-					sec, nsec := 1700000000+int64(r.Intn(40000000)), int64(r.Intn(1000000000))
-					w := []string{"log", m.name, strconv.Itoa(hx.Pick(r, []int{8, 8, 9, 12, 100, 4, 0})), hexs(stampTok(mkTime(sec, nsec, 0))),
-						strconv.FormatInt(sec, 10), strconv.FormatInt(nsec, 10), "0", hexs(hx.Pick(r, msgs))}
-					w = append(w, genAttrs(r, 2, true)...)
-					out(strings.Join(w, " "))
-				}
-			case c < 4 && nextS < 6:
-				addRoot()
-			case c < 9:
-				var tl []ghandler
-				for _, x := range hs {
-					if !x.multi {
-						tl = append(tl, x)
-					}
-				}
-				m := ghandler{name: newName(), multi: true}
-				w := []string{"mnew", m.name}
-				usedBuf := map[int]bool{}
-				for i, k := 0, r.Intn(5); i < k; i++ {
-					x := hx.Pick(r, tl)
-					// two children on one buffered sink race with the delivery goroutine inside a single Handle:
-					// whether the second send finds room is a matter of scheduling, so that shape is left to `stress`
-					if buffered[x.sinks[0]] > 0 {
-						if usedBuf[x.sinks[0]] {
-							continue
-						}
-						usedBuf[x.sinks[0]] = true
-					}
-					w = append(w, x.name)
-					m.sinks = append(m.sinks, x.sinks...)
-				}
-				hs = append(hs, m)
-				out(strings.Join(w, " "))
-			case c < 22:
-				nh := ghandler{name: newName(), multi: h.multi, sinks: h.sinks}
-				g := hx.Pick(r, grpNames)
-				hs = append(hs, nh)
-				out("wg " + nh.name + " " + h.name + " " + hexs(g))
-			case c < 40:
-				nh := ghandler{name: newName(), multi: h.multi, sinks: h.sinks}
-				hs = append(hs, nh)
-				out(strings.TrimSpace("wa " + nh.name + " " + h.name + " " + strings.Join(genAttrs(r, 3, false), " ")))
-			case c < 45:
-				out("en " + h.name + " " + strconv.Itoa(hx.Pick(r, levels)))
-			case c < 52:
-				s := r.Range(1, nextS-1)
-				m := hx.Pick(r, []string{"ok", "fail", "faile", "fails", "fails", "panic", "panice"})
-				if buffered[s] > 0 && strings.HasPrefix(m, "panic") {
-					m = "fail"
-				}
-				panicky[s] = strings.HasPrefix(m, "panic")
-				out("mode " + strconv.Itoa(s) + " " + m)
-			case c < 58:
-				s := r.Range(1, nextS-1)
-				if buffered[s] == 0 {
-					continue
-				}
-				if held[s] {
-					delete(held, s)
-					out("release " + strconv.Itoa(s))
-				} else {
-					held[s] = true
-					out("hold " + strconv.Itoa(s))
-				}
-			case c < 64 && !anyHeld:
-				out(strings.TrimSpace("logerr " + h.name + " " + strconv.Itoa(hx.Pick(r, levels)) + " " + hexs(hx.Pick(r, msgs)) + " " + strings.Join(genAttrs(r, 3, true), " ")))
-			default:
-				sec, nsec, zone := hx.Pick(r, secs), hx.Pick(r, nsecs), hx.Pick(r, zones)
-				if r.Chance(1, 3) {
-					sec, nsec = 1700000000+int64(r.Intn(40000000)), int64(r.Intn(1000000000))
-				}
-				w := []string{"log", h.name, strconv.Itoa(hx.Pick(r, levels)), hexs(stampTok(mkTime(sec, nsec, zone))),
-					strconv.FormatInt(sec, 10), strconv.FormatInt(nsec, 10), strconv.Itoa(zone), hexs(hx.Pick(r, msgs))}
-				w = append(w, genAttrs(r, 4, true)...)
-				out(strings.Join(w, " "))
-			}
-		}
-		// leave nothing stalled
-		for s := 1; s < nextS; s++ {
-			if held[s] {
-				out("release " + strconv.Itoa(s))
+			if !seen[l] {
+				seen[l] = true
+				w = append(w, strconv.Itoa(l)+":"+hexs(hx.Pick(r, []string{"TRACE", "info", "", "W", "FATAL!", "é", "a | b"})))
 			}
 		}
 	}
+	if depth > 0 {
+		g.buffered[g.nextS] = depth
+	}
+	g.isVar[g.nextS] = strings.HasPrefix(lvl, "var:")
+	g.hs = append(g.hs, ghandler{name: w[1], sinks: []int{g.nextS}})
+	g.nextS++
+	g.out(strings.Join(w, " "))
+}
+
+func (g *gen) attrs(maxN int, record bool) []string {
+	if g.r.Chance(1, 60) {
+		return bigAttrs(g.r, g.tier, record)
+	}
+	return genAttrs(g.r, maxN, record)
+}
+
+func (g *gen) logLine(h ghandler, level int, attrs []string) {
+	r := g.r
+	sec, nsec, zone := hx.Pick(r, secs), hx.Pick(r, nsecs), hx.Pick(r, zones)
+	if r.Chance(1, 3) {
+		sec, nsec = 1700000000+int64(r.Intn(40000000)), int64(r.Intn(1000000000))
+	}
+	msg := hx.Pick(r, msgs)
+	if r.Chance(1, 80) {
+		msg = strings.Repeat("m", hx.Pick(r, bigMsgLen))
+	}
+	w := []string{"log", h.name, strconv.Itoa(level), hexs(stampTok(mkTime(sec, nsec, zone))),
+		strconv.FormatInt(sec, 10), strconv.FormatInt(nsec, 10), strconv.Itoa(zone), hexs(msg)}
+	g.out(strings.Join(append(w, attrs...), " "))
+}
+
+func (g *gen) derive(h ghandler) ghandler {
+	r := g.r
+	nh := ghandler{name: g.newName(), multi: h.multi, sinks: h.sinks, depth: h.depth + 1}
+	g.hs = append(g.hs, nh)
+	if r.Chance(2, 5) {
+		g.out("wg " + nh.name + " " + h.name + " " + hexs(hx.Pick(r, grpNames)))
+	} else {
+		a := g.attrs(3, false)
+		if r.Chance(1, 4) { // an empty group handed to WithAttrs reaches the handler; something must follow it
+			a = append((&node{kind: 'g', key: hx.Pick(r, keys)}).words(nil), a...)
+		}
+		g.out(strings.TrimSpace("wa " + nh.name + " " + h.name + " " + strings.Join(a, " ")))
+	}
+	return nh
+}
+
+func (g *gen) pickMulti(minSinks int) (ghandler, bool) {
+	var ml []ghandler
+	for _, x := range g.hs {
+		if x.multi && len(x.sinks) >= minSinks {
+			ml = append(ml, x)
+		}
+	}
+	if len(ml) == 0 {
+		return ghandler{}, false
+	}
+	return hx.Pick(g.r, ml), true
+}
+
+func (g *gen) setMode(s int, m string) {
+	if g.buffered[s] > 0 && strings.HasPrefix(m, "panic") {
+		m = "fail" // a panic in the delivery goroutine would end the process
+	}
+	g.out("mode " + strconv.Itoa(s) + " " + m)
+}
+
+func (g *gen) anyHeld() bool { return len(g.held) > 0 }
+
+func (logArea) Gen(r *hx.Rng, n int, tier string, emit func(string)) {
+	g := &gen{r: r, tier: tier, left: n, emit: emit}
+	for g.left > 0 {
+		g.out("reset")
+		g.hs, g.buffered, g.held, g.isVar, g.nextH, g.nextS = nil, map[int]int{}, map[int]bool{}, map[int]bool{}, 0, 1
+		g.addRoot()
+		for ops := r.Range(8, 45); ops > 0 && g.left > 0; ops-- {
+			g.one()
+		}
+		for s := 1; s < g.nextS; s++ { // leave nothing stalled
+			if g.held[s] {
+				g.out("release " + strconv.Itoa(s))
+			}
+		}
+	}
+}
+
+func (g *gen) one() {
+	r := g.r
+	h := g.hs[r.Intn(len(g.hs))]
+	if r.Chance(1, 3) { // favour recent handlers so that chains grow
+		h = g.hs[len(g.hs)-1-r.Intn(min(3, len(g.hs)))]
+	} else if r.Chance(1, 3) { // and fan-out handlers once there are some
+		if m, ok := g.pickMulti(1); ok {
+			h = m
+		}
+	}
+	c := r.Intn(100)
+	switch {
+	case c < 3 && g.nextS < 6:
+		g.addRoot()
+	case c < 8:
+		var tl []ghandler
+		for _, x := range g.hs {
+			if !x.multi {
+				tl = append(tl, x)
+			}
+		}
+		m := ghandler{name: g.newName(), multi: true}
+		w := []string{"mnew", m.name}
+		usedBuf := map[int]bool{}
+		k := r.Intn(5)
+		if r.Chance(1, 12) {
+			k = hx.Pick(r, []int{16, 17, 18, 33, 65}) // many children
+		}
+		for i := 0; i < k; i++ {
+			x := hx.Pick(r, tl)
+			// two children on one buffered sink race with the delivery goroutine inside a single Handle: whether the
+			// second send finds room is a matter of scheduling, so that shape is left to `stress`
+			if g.buffered[x.sinks[0]] > 0 {
+				if usedBuf[x.sinks[0]] {
+					continue
+				}
+				usedBuf[x.sinks[0]] = true
+			}
+			w = append(w, x.name)
+			m.sinks = append(m.sinks, x.sinks...)
+		}
+		g.hs = append(g.hs, m)
+		g.out(strings.Join(w, " "))
+	case c < 30:
+		g.derive(h)
+	case c < 34: // derivation tree: two siblings at every depth, the chain goes on from one of them, everything logs afterwards
+		var made []ghandler
+		cur := h
+		d := r.Range(3, 10)
+		if r.Chance(1, 10) {
+			d = hx.Pick(r, []int{16, 17, 33})
+		}
+		for i := 0; i < d && g.left > 0; i++ {
+			a := g.derive(cur)
+			b := g.derive(cur)
+			made = append(made, a, b)
+			if r.Chance(1, 4) {
+				made = append(made, g.derive(cur)) // a third one
+			}
+			if r.Bool() {
+				cur = a
+			} else {
+				cur = b
+			}
+		}
+		for i, k := 0, r.Range(3, 8); i < k && g.left > 0 && !g.anyHeld(); i++ {
+			x := hx.Pick(r, made)
+			g.logLine(x, hx.Pick(r, []int{8, 8, 9, 100, math.MaxInt64}), genAttrs(r, 2, true))
+		}
+		if !g.anyHeld() && g.left > 0 {
+			g.logLine(h, 100, nil) // and the handler it all started from
+		}
+	case c < 38:
+		g.out("en " + h.name + " " + strconv.Itoa(hx.Pick(r, levels)))
+	case c < 45:
+		g.setMode(r.Range(1, g.nextS-1), hx.Pick(r, okModes))
+	case c < 50:
+		s := r.Range(1, g.nextS-1)
+		if g.buffered[s] == 0 {
+			return
+		}
+		if g.held[s] {
+			delete(g.held, s)
+			g.out("release " + strconv.Itoa(s))
+		} else {
+			g.held[s] = true
+			g.out("hold " + strconv.Itoa(s))
+		}
+	case c < 53: // buffered burst: fill to the limit and one beyond, drain, regrow, with records of different lengths
+		s := r.Range(1, g.nextS-1)
+		d := g.buffered[s]
+		if d == 0 || d > 8 || g.held[s] {
+			return
+		}
+		var fam []ghandler
+		for _, x := range g.hs {
+			if !x.multi && x.sinks[0] == s {
+				fam = append(fam, x)
+			}
+		}
+		for round := 0; round < 2 && g.left > 0; round++ {
+			g.out("hold " + strconv.Itoa(s))
+			g.held[s] = true
+			for i, k := 0, d+r.Range(0, 2); i < k; i++ {
+				g.logLine(hx.Pick(r, fam), 8, genAttrs(r, i%4, true))
+			}
+			g.out("release " + strconv.Itoa(s))
+			delete(g.held, s)
+			g.logLine(hx.Pick(r, fam), 8, nil)
+		}
+	case c < 56: // change the level shared by a family, then look at once
+		s := r.Range(1, g.nextS-1)
+		if !g.isVar[s] {
+			return
+		}
+		l := hx.Pick(r, levels)
+		g.out("setlevel " + strconv.Itoa(s) + " " + strconv.Itoa(l))
+		g.out("en " + h.name + " " + strconv.Itoa(hx.Pick(r, []int{l, l - 1, l + 1, 0})))
+		if !g.anyHeld() {
+			g.logx(h, hx.Pick(r, []int{l, l - 1, 8}))
+		}
+	case c < 57:
+		g.out("norm " + hx.Pick(r, rootLvls) + " " + strconv.Itoa(hx.Pick(r, []int{0, 1, -1, 64, math.MinInt64, math.MaxInt64})) + " " + strconv.Itoa(r.Intn(2)))
+	case c < 64 && !g.anyHeld():
+		g.logx(h, hx.Pick(r, levels))
+	case c >= 92 && !g.anyHeld():
+		// one fan-out handler takes several records in a row while the set of failing children varies; its first
+		// child keeps returning its sentinel *errs.Error (an aggregate must never be built INTO a child's error)
+		m, ok := g.pickMulti(2)
+		if !ok {
+			g.addRootOrDerive(h)
+			return
+		}
+		g.setMode(m.sinks[0], hx.Pick(r, []string{"fails", "fails", "failm"}))
+		for k := r.Range(3, 7); k > 0 && g.left > 0; k-- {
+			for _, sk := range m.sinks[1:] {
+				if sk == m.sinks[0] || r.Chance(1, 3) {
+					continue
+				}
+				g.setMode(sk, hx.Pick(r, okModes))
+			}
+			if r.Chance(1, 6) {
+				g.setMode(m.sinks[0], hx.Pick(r, []string{"ok", "fails", "fails", "failm", "panics"}))
+			}
+			g.logLine(m, hx.Pick(r, []int{8, 8, 9, 12, 100, 4, 0, math.MaxInt64}), genAttrs(r, 2, true))
+		}
+	default:
+		g.logLine(h, hx.Pick(r, levels), g.attrs(6, true))
+	}
+}
+
+func (g *gen) addRootOrDerive(h ghandler) {
+	if g.nextS < 6 {
+		g.addRoot()
+	} else {
+		g.derive(h)
+	}
+}
+
+// logx emits one of the ten errs.Log* entry points; those without a level argument log at slog.LevelError.
+func (g *gen) logx(h ghandler, level int) {
+	r := g.r
+	api := hx.Pick(r, logAPIs)
+	if !strings.HasSuffix(api, "WithLevel") {
+		level = 8
+	}
+	w := []string{"logx", api, hx.Pick(r, []string{"bg", "bg", "nil"}), hx.Pick(r, []string{"h", "h", "nil"}),
+		hx.Pick(r, []string{"e", "e", "e", "p", "p", "n", "t"}), h.name, strconv.Itoa(level), hexs(hx.Pick(r, msgs))}
+	g.out(strings.TrimSpace(strings.Join(append(w, g.attrs(6, true)...), " ")))
 }
